@@ -45,6 +45,7 @@ type k8Case struct {
 	N        int32   `json:"n"`
 	Ntpl     int     `json:"ntpl"`
 	Flag     bool    `json:"flag"`
+	UpdFail  bool    `json:"updfail"`
 	Pvcs     []k8Pvc `json:"pvcs"`
 	Sets     []k8Set `json:"sets"`
 }
@@ -172,8 +173,13 @@ func runK8sCase(c *k8Case) k8Obs {
 			}
 			return o
 		}
+		if c.UpdFail {
+			cli.PrependReactor("update", "statefulsets", func(a k8stesting.Action) (bool, runtime.Object, error) {
+				return true, nil, fmt.Errorf("Operation cannot be fulfilled on statefulsets.apps \"web\": the object has been modified")
+			})
+		}
 		before := len(cli.Actions())
-		if err := ms[0].ChangeScale(c.N); err != nil {
+		if err := ms[0].ChangeScale(c.N); err != nil && !c.UpdFail {
 			o.Err = err.Error()
 		}
 		for _, a := range cli.Actions()[before:] {
